@@ -2,6 +2,7 @@
 import json, os
 from .. import core
 from ..core import Run, ToolError
+from . import compof
 
 LINK = {"quick": (3, 1), "thorough": (4, 1)}
 
@@ -53,7 +54,11 @@ def check(tier):
     cases = linker_cases + points
     run.case_of = lambda ev: cases[ev["case"]] if "case" in ev and ev["case"] < len(cases) else None
     events = drive_and_validate(run, cases, shards=4 if tier == "quick" else 16)
-    run.cov["evaluations"] = len(cases)
+    # several clauses, clauses inside inner SEQUENCEs, one type reached along several paths (CompOf.tla)
+    co_cases, co_events = compof.family(run, tier, "expansion")
+    plain_case_of = run.case_of
+    run.case_of = lambda ev: (co_cases[ev["case"]] if ev.get("case", -1) < len(co_cases) else None) if ev.get("ev") == "compof2" else plain_case_of(ev)
+    run.cov["evaluations"] = len(cases) + len(co_cases)
     run.cov["components_of_cases"] = len(linker_cases)
     run.cov["other_notation_points"] = len(points)
     run.cov["distinct_nontrivial"] = len({e["asn"] for e in events if e.get("uses_compof") or e["ev"] == "sugar"})
@@ -63,7 +68,8 @@ def check(tier):
                        "any position, acyclic) under EVERY order of the definition names (Linker.tla); (b) the parameter product of "
                        "MC_C09.tla for parameterized types, selection types, class field types and value references, each with the "
                        "referenced name sorting before and after its user; every case compiled as written and hand-expanded; "
-                       "non-trivial = the definition uses the notation; distinct by sugared text")
+                       "non-trivial = the definition uses the notation; distinct by sugared text; (c) CompOf.tla: every topology of 3 definitions with up to two "
+                       "COMPONENTS OF clauses each, a clause inside an anonymous inner SEQUENCE, a marker behind the clauses, under every order of the names")
     step = max(1, len(events) // 6)
     run.cov["samples"] = [{"asn": e["asn"], "expanded": e["expanded_asn"], "def": e["def"]} for e in events[::step][:6]]
     run.assumptions = ["value references and named numbers inside constraints are also covered, against literal semantics, by C04 "
@@ -75,6 +81,11 @@ def check(tier):
 def replay(payload):
     run = Run("C09", "quick")
     case = payload.get("case")
+    if payload.get("event", {}).get("ev") == "compof2" and case is not None:
+        compof.replay_one(run, case, "expansion")
+        for what, e in run.violations:
+            print("MISMATCH:", what)
+        return 1 if run.violations else 0
     if case is None:
         print("replay file carries no case")
         return 2
